@@ -10,11 +10,13 @@ T = TypeVar("T")
 def recursive_subclasses(cls: Type[T]) -> List[Type[T]]:
     """
     :param cls: The class.
-    :return: A list of the classes subclasses without the class itself.
+    :return: A list of the classes subclasses without the class itself, each subclass once.
     """
-    return cls.__subclasses__() + [
+    subclasses = cls.__subclasses__() + [
         g for s in cls.__subclasses__() for g in recursive_subclasses(s)
     ]
+    # a class that is reachable through several bases (diamond inheritance) is found more than once
+    return list(dict.fromkeys(subclasses))
 
 
 @dataclass
